@@ -12,6 +12,8 @@ import (
 	"strings"
 
 	"gvh/common"
+
+	grpcds "github.com/wundergraph/graphql-go-tools/v2/pkg/engine/datasource/grpc_datasource"
 )
 
 type Arg struct {
@@ -295,6 +297,7 @@ func pruneVars(op *Op) {
 // ---------------------------------------------------------------- generator
 type Gen struct {
 	S       *Schema
+	M       *grpcds.GRPCMapping // configured GraphQL -> protobuf names (for the shape's S3 annotations)
 	R       *common.Rand
 	uid     int
 	varN    int
